@@ -10,8 +10,9 @@ Tie / exhaustive correspondence of the models with the real code
   classification + unary minus + std::fpclassify/std::signbit of float(h) (2^16),
   round(n) for n = 0..12 (13 x 2^16), halfFunction with several f / domain
   choices (each 2^16), the one- and two-argument constructors (header default
-  arguments) for T = unsigned/float/half, and a second build with
-  -DIMATH_HAVE_LARGE_STACK.
+  arguments) for T = unsigned/float/half, all again in a second build with
+  -DIMATH_HAVE_LARGE_STACK, and all of it re-run in AddressSanitizer+UBSan builds
+  (the table loop's bound and new[]/delete[] are invisible to the entries read back).
 Sub-claims that are NOT provable here and are decided by enumeration:
   compound arithmetic `a op= b` against the property's own right-hand side
   half(float(a) op float(b)) evaluated with the model conversions and Lean's
@@ -32,8 +33,7 @@ REQUIRED = ["neg_bits", "neg_value", "class_partition", "class_float_agree", "ma
             "min_is_smallest_normal", "denorm_min_is_smallest_positive", "epsilon_is_gap_above_one", "lowest_is_neg_max",
             "round_error_is_half", "digits_exact", "digits10_defining", "exponent_limits", "special_values", "macros_agree",
             "max_conversion_boundary", "round_identity", "round_spec", "round_coherent", "lut_size", "lut_spec",
-            "halfLt_iff_value", "fpclassify_agree", "halfFunction_default_domain", "round_nan", "other_members",
-            "is_bounded_observed"]
+            "halfLt_iff_value", "fpclassify_agree", "halfFunction_default_domain", "round_nan", "other_members"]
 
 OPS = ["+=", "-=", "*=", "/="]
 LUTS = [("id", 0xfbff, 0x7bff, "default domain [-HALF_MAX, HALF_MAX]"),
@@ -104,6 +104,7 @@ def lines_of(cmd, stdin=None, timeout=1800):
 
 
 _DRV_CACHE = {}
+_IMPL_RUNS = []          # (binary, args, rc, lines) of every 2^16-line harness command, replayed under the sanitizer builds
 
 
 def driver_lines(args):
@@ -116,6 +117,7 @@ def driver_lines(args):
 def compare_all(chk, binary, args, name, keyfmt, what, drv_args=None):
     """One 2^16-line command on both sides; returns True when identical."""
     rc1, a = lines_of([binary] + args, timeout=600)
+    _IMPL_RUNS.append((binary, list(args), rc1, a))
     rc2, b = driver_lines(drv_args if drv_args is not None else args)
     ok = rc1 == 0 and rc2 == 0 and len(a) == 65536 and a == b
     chk.oblige("corr:%s:all-2^16" % name, "correspondence", ok)
@@ -229,8 +231,44 @@ def parse_kv(line):
     return {k: int(v) for k, v in (w.split("=") for w in line.split()[1:])}
 
 
+SAN_FLAGS = ["-fsanitize=address,undefined", "-fno-sanitize-recover=all", "-g"]
+
+
+def sanitizer_stage(chk, san_of, plain_binary, extra_cmds):
+    """Replay every recorded 2^16-line command (and `extra_cmds` = [(args, stdin)]) in the ASan+UBSan build of the same
+    flavour: exit status 0, no sanitizer report, output identical to the plain build."""
+    for plain, san in san_of.items():
+        tag = os.path.basename(san)
+        runs = [(args, None, rc, a) for (b, args, rc, a) in _IMPL_RUNS if b == plain]
+        if plain == plain_binary:
+            for args, stdin in extra_cmds:
+                rc, a = lines_of([plain] + args, stdin=stdin, timeout=900)
+                runs.append((args, stdin, rc, a))
+        bad = None
+        for args, stdin, rc, a in runs:
+            rc2, b = lines_of([san] + args, stdin=stdin, timeout=1800)
+            if rc2 != 0 or rc != 0 or a != b:
+                rep = [l for l in b if "ERROR: " in l or l.startswith("SUMMARY: ") or "runtime error:" in l]
+                bad = (args, rc2, rep[:4] or b[-3:])
+                break
+        chk.oblige("sanitizer:%s: %d harness commands (every halfFunction table / class / round sweep of this flavour%s) run with "
+                   "no AddressSanitizer/UBSan report and print what the plain build prints"
+                   % (tag, len(runs), ", text I/O, a slice of the arithmetic self-check" if plain == plain_binary else ""),
+                   "sanitizer", bad is None)
+        chk.count(len(runs), len(runs))
+        chk.extra.setdefault("sanitizer_runs", {})[tag] = len(runs)
+        if bad:
+            args, rc2, rep = bad
+            chk.fail("sanitizer:" + tag, "C03:sanitizer:%s:%s" % (tag, "_".join(args[:3])),
+                     "the %s build reports an error (or prints something else than the plain build) for `%s`" % (tag, " ".join(args)),
+                     {"command": " ".join(args), "exit_status": rc2, "sanitizer_report": rep,
+                      "flags": " ".join(SAN_FLAGS), "replay_cmd": "%s %s > /dev/null" % (os.path.relpath(san, lib.VERIF), " ".join(args))},
+                     True)
+
+
 def run(chk):
-    chk.trusted = ["Lean 4.33 kernel (decide +kernel enumeration through allBits, no native_decide)",
+    chk.trusted = ["AddressSanitizer/UBSan of g++ 12 for the memory-safety tie of the halfFunction table loop",
+                   "Lean 4.33 kernel (decide +kernel enumeration through allBits, no native_decide)",
                    "axioms: propext, Classical.choice, Quot.sound at most",
                    "hand models Model/Half.lean (classification, neg, roundN), Model/HalfFunction.lean, tied by exhaustive correspondence",
                    "translator tools/gen_halflimits.py (compiled dump of numeric_limits<half> / HALF_* from the current half.h, cross-checked by regex; "
@@ -251,17 +289,26 @@ def run(chk):
                        "halfFunction: the tabulated function is abstract in the theorem; correspondence uses three concrete f, element types "
                        "unsigned/float/half and both settings of IMATH_HAVE_LARGE_STACK",
                        "the _MSC_VER branch of the HALF_* float macros is read as text only (never compiled here)",
+                       "the self-check and operator=(float) are real-vs-real through the same half(float)/operator float(): the chain to "
+                       "IEEE semantics is self-check o C01/C02 (conversions) o 'hardware op'; in quick the only MODEL-route evidence for "
+                       "half pairs is the ~6,000^2 boundary pairs + 2,048 full rows",
+                       "HALF_EPSILON is accepted through a tolerance (see extra.observed_outside_property): it converts to epsilon() "
+                       "exactly but its float value is 43 float ulps below 2^-10",
+                       "not exercised, not claimed: the reference RETURNED by the compound operators (the harness reads the object), "
+                       "round(n) for n > 12 on the real code (theorem round_identity is structural; n = 10, 11, 12 are run), constexpr "
+                       "evaluation of round/operator-, the C03 harness under the F16C / no-lookup-table build configurations (the operator "
+                       "bodies are configuration-independent; the conversions in those configurations are C02's)",
                        "numeric_limits<half>::is_bounded/is_iec559/traps/tinyness_before/has_denorm_loss are dumped and reported in "
                        "extra.observed_outside_property, but nothing is claimed about them (the property lists the extremes and digit counts only)"]
     chk.rule = ("all 2^16 half patterns for classification/unary minus/std::fpclassify+signbit of float(h), round(n) with n = 0..12, "
                 "halfFunction tables: 9 f/domain choices with 7 explicit arguments, the one- and two-argument constructors (header "
-                "defaults) and 7-argument tables for T = unsigned/float/half, repeated in a -DIMATH_HAVE_LARGE_STACK build (read through "
-                "a copy of the object); arithmetic: all ordered pairs over ~6,000 boundary halves (zeros, subnormal/normal edges, every "
+                "defaults) and 7-argument tables for T = unsigned/float/half (35 tables), all repeated in a -DIMATH_HAVE_LARGE_STACK build (read "
+                "through a copy of the object), and every one of these commands re-run in ASan+UBSan builds of both flavours; arithmetic: all ordered pairs over ~6,000 boundary halves (zeros, subnormal/normal edges, every "
                 "power of two +-1 ulp, max, inf, NaNs, seeded random) x 4 operators with half rhs and with ~6,000 float rhs (exact "
                 "halves, ties and near-ties between halves, float subnormals, overflow/underflow thresholds, inf, quiet and signalling "
                 "NaNs, seeded random) against the model AND bit-exactly against half(float(x) op float(y)) evaluated in the harness, "
-                "plus 2,048 seeded left operands against all 65,536 half rhs (model) and ALL 2^32 ordered half pairs x 4 (self-check, "
-                "both tiers); thorough: all 2^32 ordered half pairs x 4 operators against the model; text: all 63,488 finite halves at "
+                "plus 2,048 seeded left operands against all 65,536 half rhs (model), ALL 2^32 ordered half pairs x 4 and all 65,536 "
+                "half lhs x the ~6,000 float rhs x 4 (self-check, both tiers); thorough: all 2^32 ordered half pairs x 4 operators against the model; text: all 63,488 finite halves at "
                 "precision 6, max_digits10 and max_digits10-1, all digits10- and (digits10+1)-digit decimals in the normalized range; "
                 "limits: every HALF_* float macro as a binary32 pattern against the value it names, MSVC branch against the compiled branch")
     vals, rx, changed, gout = gen_halflimits.regenerate()
@@ -274,25 +321,35 @@ def run(chk):
                  {"output": gout[-3000:]}, False)
     else:
         dis = {k: (vals[k], rx.get(k)) for k in vals if k in rx and rx[k] != vals[k]}
-        chk.oblige("translator-validation: regex reading of half.h = compiled values (%d constants)" % len([k for k in vals if k in rx]),
-                   "translator-validation", not dis and len(rx) >= 30, dis or None)
-        if dis:
-            chk.fail("translator-validation:halflimits", "C03:translator:regex-vs-compiled:" + sorted(dis)[0],
-                     "regex and compiled readings of half.h disagree", {"compiled_vs_regex": dis}, False)
+        compared = set(k for k in vals if k in rx)
+        lost = sorted(set(gen_halflimits.REGEX_COVERED) - compared)
+        chk.oblige("translator-validation: regex reading of half.h = compiled values (all %d constants the regex route is pinned to read)"
+                   % len(gen_halflimits.REGEX_COVERED), "translator-validation", not dis and not lost,
+                   {"disagree": dis, "no_longer_read_by_regex": lost} if (dis or lost) else None)
+        if dis or lost:
+            chk.fail("translator-validation:halflimits", "C03:translator:regex-vs-compiled:" + (sorted(dis)[0] if dis else lost[0]),
+                     "regex and compiled readings of half.h disagree" if dis else
+                     "the regex route no longer reads a constant it is pinned to read (header reformatted?)",
+                     {"compiled_vs_regex": dis, "no_longer_read_by_regex": lost}, False)
         chk.extra["half_limits"] = {k: (("0x%x" % v) if not k.startswith("limits_") or v > 64 else v) for k, v in vals.items()}
         # observed, OUTSIDE the property (its list of extremes does not include the classification traits): recorded, never a violation
         chk.extra["observed_outside_property"] = [
             {"what": "std::numeric_limits<half>::is_bounded", "value": bool(vals.get("limits_is_bounded")),
-             "note": "the type is bounded: 65,536 values, every finite one in [lowest(), max()] (theorems lowest_is_neg_max, "
-                     "is_bounded_observed); [numeric.limits.members] would have is_bounded = true (as for float); the header says "
+             "note": "the type is bounded: 65,536 values, every finite one in [lowest(), max()] (theorem lowest_is_neg_max); [numeric.limits.members] would have is_bounded = true (as for float); the header says "
                      + ("false" if not vals.get("limits_is_bounded") else "true")},
             {"what": "half::round(n) of a NaN", "value": "payload truncated; an infinity iff payload < 2^(10-n), e.g. 0x7c01.round(0) = 0x7c00",
              "note": "theorem round_nan; the property restricts round(n) to finite or infinite inputs"},
+            {"what": "HALF_EPSILON (a constant the property names: 'gap above 1.0')",
+             "value": {"float_bits_of_macro": "0x%08x" % vals["macro_HALF_EPSILON"],
+                       "float_bits_of_2^-10 = float(epsilon())": "0x%08x" % halfspec.spec_h2f(limits_expected()["limits_epsilon"]),
+                       "float_ulps_below_2^-10": halfspec.spec_h2f(limits_expected()["limits_epsilon"]) - vals["macro_HALF_EPSILON"]},
+             "note": "TOLERATED DEVIATION: the literal 0.00097656 is 2^-10 = 0.0009765625 truncated to 5 significant digits, so "
+                     "(float) HALF_EPSILON is not the gap itself (1.0f + HALF_EPSILON is not a half); accepted because half(HALF_EPSILON) "
+                     "== epsilon() exactly and the literal is within one unit of its last printed digit: tolerance 1e-8 absolute in "
+                     "macro_value_defects, < 64 float ulps in theorem macros_agree; a changed digit fails both"},
             {"what": "is_iec559 / traps / tinyness_before / has_denorm_loss",
              "value": [vals.get("limits_is_iec559"), vals.get("limits_traps"), vals.get("limits_tinyness_before"), vals.get("limits_has_denorm_loss")],
              "note": "dumped, nothing claimed"}]
-        chk.oblige("observation (outside the property, never fails): numeric_limits<half>::is_bounded = %s although the type is bounded"
-                   % ("true" if vals.get("limits_is_bounded") else "false"), "observation", True)
         # each float macro, AS A FLOAT, is the value it names (not merely a float that converts to it)
         mbad = macro_value_defects(vals)
         chk.oblige("limits: (float) HALF_MAX/HALF_MIN/HALF_NRM_MIN/HALF_DENORM_MIN are bit-exactly the binary32 images of the true "
@@ -367,6 +424,21 @@ def run(chk):
         chk.fail("build:half_c03_ls", "C03:build:half_c03_ls", "the C03 harness does not compile with -DIMATH_HAVE_LARGE_STACK",
                  {"compiler_output": ol[-3000:]}, False)
 
+    # both flavours again with AddressSanitizer + UBSan: the 65,536 entries READ BACK cannot see a write past the table
+    # (`i <= (1 << 16)`), `delete` for `delete[]`, or a shift by a negative count; the sanitizers can
+    del _IMPL_RUNS[:]
+    srcs = ["corr/half_c03.cpp", os.path.join(lib.REPO, "src/Imath/half.cpp")]
+    sb = lib.cxx_build_many([dict(name="half_c03_asan", sources=srcs, extra=SAN_FLAGS),
+                             dict(name="half_c03_ls_asan", sources=srcs, extra=SAN_FLAGS + ["-DIMATH_HAVE_LARGE_STACK"])])
+    san_of = {}
+    for nm, plain in (("half_c03_asan", binary), ("half_c03_ls_asan", binary_ls)):
+        oks_, bs_, os_ = sb[nm]
+        chk.oblige("build:%s (%s)" % (nm, " ".join(SAN_FLAGS[:2])), "build", oks_, None if oks_ else os_[-800:])
+        if oks_ and (plain != binary_ls or okl):
+            san_of[plain] = bs_
+        else:
+            chk.fail("build:" + nm, "C03:build:" + nm, "the C03 harness does not compile with the sanitizers", {"compiler_output": os_[-3000:]}, False)
+
     # -- (2) bit-level models against the real code, all 2^16 patterns -----------------------------
     compare_all(chk, binary, ["classf_all"], "classification+unary-minus+fpclassify(float(h))", "C03:class:0x%04x",
                 "isFinite/isNormalized/isDenormalized/isZero/isNan/isInfinity/isNegative, operator-, or std::fpclassify/std::signbit "
@@ -396,10 +468,12 @@ def run(chk):
     for n in range(13):
         compare_all(chk, binary, ["round_all", str(n)], "round(%d)" % n, "C03:round:n=" + str(n) + ":0x%04x",
                     "half::round(%d) differs from the proven model" % n)
-    for f, lo, hi, note in LUTS:
-        compare_all(chk, binary, ["lut", f, "%x" % lo, "%x" % hi], "halfFunction(%s,[0x%04x,0x%04x])" % (f, lo, hi),
-                    "C03:lut:%s:%04x:%04x:" % (f, lo, hi) + "0x%04x",
-                    "halfFunction table (f=%s, domain %s) differs from the proven model" % (f, note))
+    builds = [("", binary)] + ([("+LARGE_STACK", binary_ls)] if okl else [])
+    for btag, bn in builds:
+        for f, lo, hi, note in LUTS:
+            compare_all(chk, bn, ["lut", f, "%x" % lo, "%x" % hi], "halfFunction(%s,[0x%04x,0x%04x])%s" % (f, lo, hi, btag),
+                        "C03:lut:%s:%04x:%04x%s:" % (f, lo, hi, btag) + "0x%04x",
+                        "halfFunction table (f=%s, domain %s) differs from the proven model" % (f, note))
     chk.extra["halfFunction_choices"] = [{"f": f, "domainMin": "0x%04x" % lo, "domainMax": "0x%04x" % hi, "what": note}
                                          for f, lo, hi, note in LUTS]
     # default arguments (halfFunction.h 73-80): one- and two-argument constructors.  The model is given the domain the header
@@ -409,11 +483,10 @@ def run(chk):
         dmin = halfspec.spec_f2h(vals["macro_HALF_MAX"] ^ 0x80000000)
         dmax = halfspec.spec_f2h(vals["macro_HALF_MAX"])
         tn = {"u": "unsigned", "f": "float", "h": "half"}
-        builds = [("", binary)] + ([("+LARGE_STACK", binary_ls)] if okl else [])
         ndef = 0
         for btag, bn in builds:
             for t in ("u", "f", "h"):
-                for f in (("id", "neg", "round3") if not btag else ("neg",)):
+                for f in ("id", "neg", "round3"):
                     compare_all(chk, bn, ["lutd", t, f], "halfFunction<%s>(%s) one-argument ctor%s" % (tn[t], f, btag),
                                 "C03:lut-default:%s:%s%s:" % (t, f, btag) + "0x%04x",
                                 "halfFunction<%s> built with the header's default arguments is not f on [-HALF_MAX, HALF_MAX] and 0 elsewhere"
@@ -425,7 +498,7 @@ def run(chk):
                             "halfFunction<%s> with a defaulted domainMax is not f on [domainMin, HALF_MAX]" % tn[t],
                             drv_args=["lutv", f, "%x" % lo, "%x" % dmax, "0", "0", "0", "0"])
                 ndef += 1
-            # all seven arguments, element types float and half (and unsigned in the large-stack build)
+            # all seven arguments, element types float, half and unsigned
             for t, f, lo, hi, v in (("f", "round3", 0xbc00, 0x3c00, (0x10000, 0x10001, 0x10002, 0x10003)),
                                     ("h", "neg", 0x0000, 0x7bff, (0x3555, 0x7c00, 0xfc00, 0x7e00)),
                                     ("h", "id", 0x7e00, 0x3c00, (0x0001, 0x8000, 0x0000, 0x7fff)),
@@ -528,6 +601,19 @@ def run(chk):
     chk.extra["arith_selfcheck_all_pairs"] = dict(stb.get("arith_self", {}), wall_s=round(time.time() - t0, 1))
     if not okb:
         self_fail("enum:arith-self:all-pairs", sl, rcs)
+
+    # float right-hand sides against EVERY half left operand (the four float-rhs bodies are distinct code, half.h 752-799)
+    ftext = " ".join("%x" % f for f in fs) + "\n"
+    t0 = time.time()
+    rcs, sl = lines_of([binary, "arith_self_frows"], stdin=ftext, timeout=3600)
+    stf = {l.split()[0]: parse_kv(l) for l in sl if l.startswith("arith_self ")}
+    okf = rcs == 0 and stf.get("arith_self", {}).get("evals") == 4 * 65536 * len(fs) and stf["arith_self"]["mismatches"] == 0
+    chk.oblige("enum:x op= f is bit-for-bit half(float(x) op f): ALL 65,536 half lhs x %d boundary float rhs x 4 ops (no model)" % len(fs),
+               "enumeration", okf)
+    chk.count(4 * 65536 * len(fs), 4 * 63488 * nf)
+    chk.extra["arith_selfcheck_float_rhs_all_lhs"] = dict(stf.get("arith_self", {}), float_rhs=len(fs), wall_s=round(time.time() - t0, 1))
+    if not okf:
+        self_fail("enum:arith-self:float-rhs-all-lhs", sl, rcs)
 
     # full rows: a seeded selection of left operands against ALL 65,536 half right-hand sides
     if okq and not chk.thorough:
@@ -636,7 +722,22 @@ def run(chk):
         if not ok4:
             chk.fail("corr:text-io:digits10-maximal", "C03:textio:digits10-not-maximal",
                      "every decimal with digits10 + 1 digits survives: digits10 is not the largest such count", {"digits10": d10, "summary": kv}, False)
-    chk.exhaustive = True
+    # -- (5) the same commands under AddressSanitizer + UBSan -------------------------------------------
+    sub = " ".join("%x" % h for h in hs[::20]) + "\n" + " ".join("%x" % f for f in fs[::20]) + "\n"
+    extra_cmds = [(["textio"], None), (["arith_self_list"], sub), (["arith_self_frows"], " ".join("%x" % f for f in fs[::100]) + "\n")]
+    if vals is not None:
+        extra_cmds += [(["textio", str(int(vals["limits_max_digits10"]))], None), (["textio_dec", str(int(vals["limits_digits10"]))], None)]
+    sanitizer_stage(chk, san_of, binary, extra_cmds)
+
+    # NOT exhaustive as a whole: float right-hand sides are a (boundary-rich) sample, and so is the model route in quick
+    chk.exhaustive = False
+    chk.extra["exhaustive_by_clause"] = {
+        "unary minus, classification, fpclassify agreement, round(n) n=0..12, halfFunction tables": "exhaustive (2^16 each) + theorems",
+        "numeric_limits / HALF_* constants": "theorems on regenerated constants",
+        "a op= b, half rhs, bit-exact vs half(float op float) in the harness": "exhaustive (2^32 x 4) in both tiers",
+        "a op= b, half rhs, vs the Lean model (NaN-ness only)": "exhaustive in thorough; SAMPLED in quick (~6,000^2 + 2,048 rows)",
+        "a op= f, float rhs": "SAMPLED rhs in both tiers: ~6,000 boundary floats; lhs: all 65,536 (self-check) / ~6,000 (model route)",
+        "text I/O": "exhaustive over finite halves (3 precisions) and digits10-digit decimals, for this libstdc++/locale only"}
     chk.sample({"half_bits": "0x7bff", "round(0)": "0x7800", "note": "rounding up would reach 0x7c00: truncated instead"})
     chk.sample({"half_bits": "0x7c01", "round(0)": "0x7c00", "note": "NaN whose payload is truncated away becomes +infinity (outside the property's claim)"})
     chk.sample({"half_bits": "0x8000", "class": "isZero, isFinite, isNegative", "text": "-0"})
